@@ -118,8 +118,8 @@ def run(prog, R):
     ok_fs = set(fsuse) <= {"source_file::source_file::resolve_file_path", "source_file::source_file::resolve_file_path::{closure#0}", "source_file::source_file::get_file_search_paths_from_env", "source_file::source_file::get_file_search_paths_from_env::{closure#0}",
                            "source_file::source_file::read_source_file", "source_file::source_file::parse_included_files::parse_one_included", "source_file::source_file::SourceFile::new"}
     R.ob("C17.3-determinism", "file-system / environment reads only in the include resolver", ok_fs and bool(fsuse), "", f"{ {k: sorted(v) for k, v in fsuse.items()} }")
-    R.premises(prog, "C17.1-lexer-layout-premise", ["C10:C10.1-", "C15:C15.5-", "C15:C15.3-"],
-               "whether a blank may be inserted between two lexemes without changing the tokens rests on the lexer's tables: number + unit splitting (unit tables agree), trivia / jointness handling, numeric suffix protocol")
+    R.premises(prog, "C17.1-lexer-layout-premise", ["C10:C10.1-", "C15:C15.5-", "C15:C15.3-", "C15:C15.2-", "C15:C15.4-"],
+               "whether a blank may be inserted between two lexemes, or an identifier renamed, without changing the token classes rests on the lexer's tables: number + unit splitting, whitespace class, trivia / jointness handling, numeric suffix protocol, keyword / directive word boundaries, comment delimiters")
     R.premises(prog, "C17.4-symbol-store-premise", ["C19:C19.1-", "C19:C19.5-"], "symbols once emitted are never changed: the symbol store is append-only (C19.1) and ids index it (C19.5)")
     # ---- C17.4 append only, one pass
     for adt, fld in (("oq3_semantics::asg::Program", "stmts"), ("oq3_semantics::semantic_error::SemanticErrorList", "list"), ("oq3_semantics::semantic_error::SemanticErrorList", "include_errors")):
